@@ -7,7 +7,7 @@ for every value of the scrutinee type.  Each matrix becomes a goml program (matc
 destructuring let for irrefutable rows) compiled by the real pipeline; GoSem.tla runs the decision tree the compiler
 produced; the output must equal FirstMatch's prediction (and GomlSem's, as a consistency check of the two specs)."""
 from common import *
-import famcheck, fam_c06
+import famcheck, fam_c06, fam_found
 
 LEVEL = "model_checking"
 
@@ -21,6 +21,8 @@ def run(tier, rep):
         if r.coverage.get(a, 0) == 0:
             raise ToolError(f"vacuity: MatchSem action {a} never taken")
     progs = fam_c06.programs(tier)
+    # (first-match semantics must not depend on which file of the package declares the enum)
+    progs += [m for m in fam_found.programs(tier) if m["family"] == "found:constructor-pattern-across-files"]
     cases, counts = famcheck.run_families("C06", rep, progs, "c06", goinvalid_is_violation=True)
     # consistency of the two specifications: MatchSem's prediction = GomlSem's outcome
     nonexh = overlap = 0
@@ -28,7 +30,9 @@ def run(tier, rep):
         if c.get("matchsem_out") is not None and c.get("oracle") and c["oracle"]["status"] in ("ok", "failed"):
             if c["oracle"]["out"].decode() != c["matchsem_out"] or c["oracle"]["status"] != c["matchsem_status"]:
                 raise ToolError(f"specification inconsistency MatchSem vs GomlSem on {c['ident']}: {c['matchsem_out']!r} vs {c['oracle']['out']!r}")
-        m = c["matrix"]
+        m = c.get("matrix")
+        if m is None:
+            continue
         if any(x["res"]["arm"] == 0 for x in m["cases"]):
             nonexh += 1
         if len({x["res"]["arm"] for x in m["cases"]}) < len(m["rows"]):
